@@ -124,6 +124,16 @@ func badLiteral(r *fw.Rand, lf *gen.Leaf) (string, string) {
 	case reflect.Complex64:
 		return "(1e39+0i)", "complex64-overflow"
 	case reflect.Map:
+		if t.Key().Kind() == reflect.Int {
+			// one key named twice: the code rejects a repeated key, and which literal spells the key cannot matter
+			switch r.Intn(3) {
+			case 0:
+				return `429:"a",429:"b"`, "map-key-repeated"
+			case 1:
+				return `429:"a",0x1AD:"b"`, "map-key-repeated-in-another-spelling"
+			}
+			return `7:"a", 0b111 :"b"`, "map-key-repeated-in-another-spelling"
+		}
 		if t.Elem().Kind() != reflect.Int {
 			return "", ""
 		}
